@@ -978,8 +978,12 @@ def gen_history(rng, st, n, p_special, allow_regen=True):
             # ANY name of a depfile does to the rest of it is judged by the ordinary edits)
             if pre.get('broken') is None and \
                not any(name_chars(hdr_path(pre, x)) for x in pre['headers']):
+                # (a header some translation unit really reaches - an includer that is itself
+                # unreachable does not count - and not through the precompiled header only)
                 cands = [h for h in sorted(pre['headers'], key=int)
-                         if any(includers(pre, h)) and h not in only_through_pch(pre) and
+                         if any(hdr_path(pre, h) in tu_closure_files(pre, t)
+                                for t in pre['tus']) and
+                         h not in only_through_pch(pre) and
                          not pre['headers'][h].get('orphan')]
                 if cands:
                     hid = rng.choice(cands)
